@@ -26,7 +26,7 @@ META = dict(
     decides='the three necessary conditions above; the atomic-set rule over {deltas,current,created} is deliberately not armed (see DESIGN.md C16)',
     undecided='HTTP date parsing (parse_http_date); clock monotonicity',
     trusted_base=['rustc MIR construction + callee resolution', 'chrono DateTime ordering'],
-    rules=['K4 304 guards + full-resolution date comparison', 'K5 validators and data from one guard', 'K13 created monotone'],
+    rules=['K4 304 guards + full-resolution date comparison', 'K5 validators and data from one guard', 'K13 created monotone', 'K13/AI serial advances by one per change for every history-size (shared with C14)'],
 )
 
 
